@@ -446,7 +446,7 @@ def monitors(tr, props):
         items = [c[4] for c in got if c[3] == 'n']
         terms = [c for c in got if c[3] in ('c', 'e')]
         p1, p2 = meta['sources']['p1'], meta['sources']['p2']
-        if end2 == 'c':
+        if end2 == 'c' and meta.get('end1', 'c') == 'c':
             limit = {'take1': 1, 'take2': 2}.get(post)
             if limit is not None and len(items) > limit:
                 v.append(('C11', 'take-overrun', 'take(%d) delivered %d items %s' % (limit, len(items), items)))
@@ -516,9 +516,17 @@ def monitors(tr, props):
             if subj == 'subject' and js != src[len(src) - len(js):]:
                 v.append(('C12', 'joiner-suffix', 'joining observer got %s of %s: not a suffix' % (js, src)))
             if subj == 'replay' and js != src:
-                v.append(('C12', 'replay-late-subscriber', 'late subscriber to the ReplaySubject got %s of %s (every item exactly once, in order)' % (js, src)))
-        if subj == 'replay' and len(J) != len(set(J)):
-            v.append(('C12', 'replay-duplicate', 'late subscriber to the ReplaySubject received an item twice: %s' % J))
+                # classify: an item missing / an item twice / wrong order (after removing repetitions)
+                first = []
+                for x in js:
+                    if x not in first:
+                        first.append(x)
+                if any(x not in js for x in src):
+                    v.append(('C12', 'replay-missing-item', 'late subscriber to the ReplaySubject got %s of %s: an item was never delivered' % (js, src)))
+                elif len(js) != len(set(js)):
+                    v.append(('C12', 'replay-duplicate', 'late subscriber to the ReplaySubject got %s of %s: an item was delivered twice' % (js, src)))
+                elif first != src:
+                    v.append(('C12', 'replay-order', 'late subscriber to the ReplaySubject got %s of %s: out of push order' % (js, src)))
         if subj == 'behavior':
             # a value, then every later value with no gap: J must be a suffix of the global push order as seen by A
             if not J:
